@@ -38,8 +38,14 @@ impl<'de, const LENGTH: usize> Deserialize<'de> for StackByteArray<LENGTH> {
                         arr[idx] = elem;
                         idx += 1;
                     } else {
-                        break;
+                        // too many elements for a fixed-length array
+                        return Err(Error::invalid_length(idx + 1, &stringify!(LENGTH)));
                     }
+                }
+
+                if idx != LENGTH {
+                    // too few elements: never pad with zeroes
+                    return Err(Error::invalid_length(idx, &stringify!(LENGTH)));
                 }
 
                 Ok(arr)
